@@ -14,7 +14,7 @@ Judge ==
   l <= NRec =>
     LET r == TraceLog[l] IN
     PrintT(<<"VERDICT", ToJson(
-      [id |-> r.id, C15 |-> SH!V_C15(r.n, r.k, r.ok, r.shards, r.shardeq),
+      [id |-> r.id, C15 |-> SH!V_C15(r.n, r.k, r.ok, r.shards, r.shardeq, r.stable),
        conf |-> IF r.ok /\ SH!Valid(r.n, r.k) /\ r.shards # SH!ModelShards(r.n, r.k)
                 THEN "shards-differ-from-array_split" ELSE "conforms"])>>)
 =============================================================================
